@@ -56,16 +56,33 @@ Theorem C07_veto :
 Proof. exact veto. Qed.
 Print Assumptions C07_veto.
 
-(* Every call is cut off at the request time-out T: a request takes at most
-   (plugins called) x T <= (plugins) x T of plugin time. *)
+(* FULL STATEMENT (false of the faithful model and of the code, findings/C07-stalled-reader-blocks-write.md):
+     every request takes at most (plugins) x T of plugin time.
+   PARTIAL: it holds when every call gets its request out (c_in_write = false: the request fits the
+   transport's buffers or the peer keeps reading) — every such call is cut off at T, so a request takes
+   at most (plugins called) x T <= (plugins) x T. *)
 Theorem C07_time_bound :
   forall (Rq Rp Acc Res : Type) (ev_of : Rq -> Z) (init : Rq -> Acc)
          (apply : Acc -> plugin -> Rp -> Acc + string) (finish : Rq -> Acc -> Res)
          (T : N) (rq : Rq) (h : plugin -> call Rp) (ps : list plugin),
+  (forall p, In p ps -> c_in_write (h p) = false) ->
   let o := snd (run_request ev_of init apply finish T rq h ps) in
   (o_time o <= N.of_nat (length (o_invoked o)) * T)%N /\ (o_time o <= N.of_nat (length ps) * T)%N.
 Proof. exact time_bound. Qed.
 Print Assumptions C07_time_bound.
+
+(* … and is refuted without that guard: a plugin that stops reading while the runtime writes a request
+   larger than the socket buffers holds the request for as long as its connection stays up (ttrpc
+   sends outside the select on the context; the multiplexer has no write deadline); once the
+   connection goes down the request still ends with the others' contributions. *)
+Theorem C07_time_bound_refuted_for_stalled_reader :
+  exists (T : N) (h : plugin -> call string) (ps : list plugin),
+    let o := snd (run_request (fun rq : N * Z => snd rq) (fun _ => @nil string)
+                    (fun acc _ tok => inl (acc ++ [tok])) (fun _ acc => acc) T (1%N, 4%Z) h ps) in
+    (N.of_nat (length ps) * T < o_time o)%N /\ o_result o = inl ["A"; "C"] /\
+    (exists p, In p ps /\ c_in_write (h p) = true).
+Proof. exact time_bound_refuted_for_stalled_reader. Qed.
+Print Assumptions C07_time_bound_refuted_for_stalled_reader.
 
 (* The four error classes the code documents as fatal are in isFatalError's table (as
    regenerated from plugin.go), and a call failing with a class of the table is Fatal. *)
@@ -97,14 +114,15 @@ Theorem C07_other_classes_veto :
 Proof. exact nonfatal_class_vetoes. Qed.
 Print Assumptions C07_other_classes_veto.
 
-(* Plugins (set I) that do not answer within the time-out T, or whose calls fail with one of
-   the fault classes, leave the request exactly as if they were not in the list. *)
+(* Plugins (set I) that got the request but do not answer within the time-out T, or whose calls
+   fail with one of the fault classes, leave the request exactly as if they were not in the list. *)
 Theorem C07_failing_plugins_are_absent :
   forall (Rq Rp Acc Res : Type) (ev_of : Rq -> Z) (init : Rq -> Acc)
          (apply : Acc -> plugin -> Rp -> Acc + string) (finish : Rq -> Acc -> Res)
          (T : N) (rq : Rq) (h : plugin -> call Rp) (I : plugin -> bool) (ps : list plugin),
   (forall p, In p ps -> I p = true ->
-     (T <= c_dur (h p))%N \/ (exists cls msg, c_res (h p) = Failed cls msg /\ In cls fault_error_classes)) ->
+     (c_in_write (h p) = false /\ (T <= c_dur (h p))%N) \/
+     (exists cls msg, c_res (h p) = Failed cls msg /\ In cls fault_error_classes)) ->
   let o := snd (run_request ev_of init apply finish T rq h ps) in
   let o' := snd (run_request ev_of init apply finish T rq h (filter (fun p => negb (I p)) ps)) in
   o_result o = o_result o' /\ filter (fun p => negb (I p)) (o_invoked o) = o_invoked o'.
@@ -123,7 +141,7 @@ Definition fxA := {| p_id := 1; p_idx := "10"; p_name := "A"; p_events := 8191; 
 Definition fxB := {| p_id := 2; p_idx := "20"; p_name := "B"; p_events := 8191; p_closed := false |}.
 Definition fxC := {| p_id := 3; p_idx := "30"; p_name := "C"; p_events := 8191; p_closed := false |}.
 Definition fx_handler (bad : call_result string) (p : plugin) : call string :=
-  {| c_res := if N.eqb (p_id p) 2 then bad else Reply (p_name p); c_dur := 5 |}.
+  {| c_res := if N.eqb (p_id p) 2 then bad else Reply (p_name p); c_dur := 5; c_in_write := false |}.
 
 (* B's connection is cut: the request returns A's and C's contributions, B is pruned and not asked again *)
 Example C07_cut :
@@ -136,7 +154,7 @@ Proof. repeat split. Qed.
 
 (* B hangs: DeadlineExceeded at T, fatal, total time 5 + 100 + 5 <= 3 * 100 *)
 Example C07_hang :
-  let h := fun p => if N.eqb (p_id p) 2 then {| c_res := Reply "B"; c_dur := 100000 |} else fx_handler (Reply "") p in
+  let h := fun p => if N.eqb (p_id p) 2 then {| c_res := Reply "B"; c_dur := 100000; c_in_write := false |} else fx_handler (Reply "") p in
   oc 100 h fxB = Fatal /\
   o_result (snd (tk_run_request 100 (1%N, 4%Z) h [fxA; fxB; fxC])) = inl ["A"; "C"] /\
   o_time (snd (tk_run_request 100 (1%N, 4%Z) h [fxA; fxB; fxC])) = 110%N.
@@ -165,7 +183,14 @@ Proof. vm_compute. split; reflexivity. Qed.
 
 (* hypotheses of C07_failing_plugins_are_absent are satisfiable: B hangs *)
 Example C07_failing_hyp :
-  let h := fun p => if N.eqb (p_id p) 2 then {| c_res := Reply "B"; c_dur := 100 |} else fx_handler (Reply "") p in
+  let h := fun p => if N.eqb (p_id p) 2 then {| c_res := Reply "B"; c_dur := 100; c_in_write := false |} else fx_handler (Reply "") p in
   forall p, In p [fxA; fxB; fxC] -> N.eqb (p_id p) 2 = true ->
-    (100 <= c_dur (h p))%N \/ (exists cls msg, c_res (h p) = Failed cls msg /\ In cls fault_error_classes).
-Proof. intros h p Hp E. left. unfold h. rewrite E. cbn. apply N.le_refl. Qed.
+    (c_in_write (h p) = false /\ (100 <= c_dur (h p))%N) \/
+    (exists cls msg, c_res (h p) = Failed cls msg /\ In cls fault_error_classes).
+Proof. intros h p Hp E. left. unfold h. rewrite E. cbn. split; [reflexivity|apply N.le_refl]. Qed.
+
+(* the guard of C07_time_bound is satisfiable (every example above) and its refutation's witness is a
+   run of the model: B stuck in its write for 100000 units under T = 100 *)
+Example C07_time_bound_guard :
+  forall p, In p [fxA; fxB; fxC] -> c_in_write (fx_handler (Reply "") p) = false.
+Proof. intros p _. reflexivity. Qed.
